@@ -7,3 +7,25 @@ func (*GroupAggregator).shouldAllowNullValues
   props C03
   ensures explicit-null-reaches-first-and-last-value-only: result <==> (aggType == "first_value" || aggType == "last_value")
 @*/
+
+/*@
+// the stream talks to the aggregator through this interface; implementations are GroupAggregator and
+// EnhancedGroupAggregator (their own contracts above); for callers only the frame and this much is assumed
+extern iface.Aggregator.Add
+  modifies *
+  props C01 C08 C03
+
+extern iface.Aggregator.Put
+  modifies *
+  props C01 C08
+
+extern iface.Aggregator.GetResults
+  modifies *
+  props C01 C08
+  ensures rows-are-real-maps: result1 == nil ==> forall(i, 0, len(result0), result0[i] != nil)
+
+extern iface.Aggregator.Reset
+  modifies *
+  props C01 C08
+
+@*/
